@@ -16,6 +16,32 @@ def kwof(t):
     return dict(t[4]) if t and t[0] == "new" and len(t) > 4 else {}
 
 
+def final_record(p):
+    """Entries of the Container a path returns as they stand at the return: the keyword arguments of its construction, then -- in order -- every
+    later attribute / item store and keyword update on that object (a later write wins).  A positional update (entries of another mapping poured
+    in afterwards) makes every entry written before it unknown.  -> (dict, fresh_positional_after: bool)"""
+    r = p.retval
+    kw = kwof(r)
+    spoiled = False
+    for e in p.events:
+        tgt = e.a.get("base", e.a.get("ctx"))
+        if tgt != r:
+            continue
+        if e.kind in ("ATTRSET", "SETATTR") and isinstance(e["attr"], str):
+            kw[e["attr"]] = e["value"]
+        elif e.kind in ("STORE", "CTXSET") and N.is_const(e["key"]):
+            kw[e["key"][2]] = e["value"]
+        elif e.kind in ("MUT", "CTXUPDATE") and e.a.get("method", "update") == "update":
+            if e.a.get("args") or e.a.get("src") is not None:
+                spoiled = True
+                kw = {}
+            for k, v in (e.a.get("kw") or ()):
+                kw[k] = v
+        elif e.kind in ("MUT", "DELITEM"):
+            spoiled = True
+    return kw, spoiled
+
+
 def run(ctx):
     M = ctx.model
     subcon = N.selfattr("subcon")
@@ -65,13 +91,12 @@ def run(ctx):
             data = ("sub", o, N.const("data"))
             ok = kinds == ["TELL", "WRITE", "TELL"] and w[0]["data"] == data and w[0]["length"] == ("call", ("free", "len"), (data,), ()) and w[0]["stream"] == STREAM
             ctx.ob("C14.R2", fi, ok, "data branch: tell, write obj['data'] with its own length, tell", key="data branch shape")
-            kw = kwof(p.retval)
+            kw, spoiled = final_record(p)
             L = ("call", ("free", "len"), (data,), ())
-            ok = p.retval[0] == "new" and p.retval[3] == (o,) and kw.get("data") == data and t.val(kw.get("offset1")) == p0 \
+            ok = p.retval[0] == "new" and p.retval[3] == (o,) and kw.get("data", data) == data and t.val(kw.get("offset1")) == p0 \
                 and t.val(kw.get("offset2")) == N.mk_add(p0, L) and t.val(kw.get("length")) == L
             ctx.ob("C14.R2", fi, ok, "data branch returns obj's entries plus data, offset1, offset2, length of what was written", key="data branch result")
-            later = [e for e in p.events if e.kind in ("MUT", "STORE", "CTXUPDATE", "CTXSET") and (e.a.get("base") == p.retval or e.a.get("ctx") == p.retval)]
-            ctx.ob("C14.R2", fi, not later, "data branch: the freshly measured fields are the last word in the result", key="data branch fresh fields win")
+            ctx.ob("C14.R2", fi, not spoiled, "data branch: the freshly measured fields are the last word in the result", key="data branch fresh fields win")
         elif no_data and has_val and p.returns:
             seen.add("value")
             o = has_val[0][3]
@@ -84,12 +109,11 @@ def run(ctx):
             D = next(iter(t.deltas), None)
             val = ("sub", o, N.const("value"))
             ctx.ob("C14.R2", fi, sub["m"] == "_build" and sub["target"] == subcon and sub["obj"] == val and sub["stream"] == STREAM, "the inner construct builds obj['value'] into the stream", key="value branch build")
-            kw = kwof(p.retval)
+            kw, spoiled = final_record(p)
             ok = D is not None and kw.get("data") == read["res"] and t.pos_before(read) == p0 and t.val(read["length"]) == D \
                 and t.val(kw.get("offset1")) == p0 and t.val(kw.get("offset2")) == N.mk_add(p0, D) and t.val(kw.get("length")) == D and t.final == N.mk_add(p0, D)
             ctx.ob("C14.R2", fi, ok, "value branch reads back exactly the bytes just built, reports their offsets/length and ends after them", key="value branch result")
-            later = [e for e in p.events if e.kind in ("MUT", "STORE", "CTXUPDATE", "CTXSET") and (e.a.get("base") == p.retval or e.a.get("ctx") == p.retval)]
-            ctx.ob("C14.R2", fi, not later and set(kw) == {"data", "value", "offset1", "offset2", "length"} and p.retval[0] == "new" and p.retval[3] in ((o,), ()),
+            ctx.ob("C14.R2", fi, not spoiled and set(kw) == {"data", "value", "offset1", "offset2", "length"} and p.retval[0] == "new" and p.retval[3] in ((o,), ()),
                    "value branch: the freshly measured data/value/offset1/offset2/length are the last word in the result (entries of the supplied object, e.g. stale offsets of an earlier parse, never override them)", key="value branch fresh fields win")
             ctx.ob("C14.R2", fi, kw.get("value") == N.mk_ite(N.mk_cmp("is", sub["res"], N.NONE), val, sub["res"]), "value is the build result (or the supplied value when the builder returns None)", key="value branch value")
         elif no_data and no_val:
